@@ -1,5 +1,280 @@
-//! Conformance harness for property C18, see /verif/DESIGN.md.
+//! Conformance harness for property C18 (line-by-line input), see
+//! /verif/DESIGN.md section 6 and spec/InputLoop.tla.
+//!
+//! `yv-c18 run --cat CATALOGUE --out RECORDS [--rand N --randmin A --randmax B]
+//!            [--real N] [--dfs N --dfs-depth D] [--rnd-sched K] [--threads T] [--full-len L]`
+//!     feeds every scenario of the TLC catalogue (and N random longer scripts)
+//!     to the real shell in every feed mode of its class and writes one record
+//!     per (scenario, distinct observation).
+//! `yv-c18 one --scenario JSON`  runs one scenario in all modes, prints records.
+mod real;
+mod scen;
+mod sim;
+
+use rand::{Rng, SeedableRng};
+use scen::Scenario;
+use serde_json::{Value, json};
+use sim::{Mode, Obs};
+use std::io::{BufRead, Write};
+use yvcommon::sched::{Schedule, next_prefix};
+use yvcommon::util::{opt, opt_usize};
+
+const CHUNKS: [usize; 5] = [1, 2, 3, 7, 0];
+
+struct Plan {
+    seed: u64,
+    /// scenarios with at most this many lines get every chunking; longer ones a seeded subset
+    full_len: usize,
+    rnd_sched: usize,
+    dfs_depth: usize,
+}
+
+fn hash_of(sc: &Scenario) -> u64 {
+    use std::hash::{Hash, Hasher};
+    let mut h = std::collections::hash_map::DefaultHasher::new();
+    sc.hash(&mut h);
+    h.finish()
+}
+
+fn sim_modes(sc: &Scenario, plan: &Plan) -> Vec<Mode> {
+    if sc.feed == "fd" {
+        let h = hash_of(sc) ^ plan.seed.wrapping_mul(0x9e37_79b9_7f4a_7c15);
+        let mut v = vec![Mode::File];
+        if sc.lines.len() <= plan.full_len {
+            for c in CHUNKS {
+                v.push(Mode::Pipe { chunk: c, schedule: Schedule::Fifo });
+            }
+        } else {
+            v.push(Mode::Pipe { chunk: CHUNKS[(h % 5) as usize], schedule: Schedule::Fifo });
+            v.push(Mode::Pipe { chunk: CHUNKS[((h / 5) % 5) as usize], schedule: Schedule::Random(h) });
+        }
+        for k in 0..plan.rnd_sched {
+            let c = CHUNKS[((h >> (8 + 3 * k)) % 4) as usize]; // not `whole`: there the schedule hardly matters
+            v.push(Mode::Pipe { chunk: c, schedule: Schedule::Random(h.wrapping_add(k as u64)) });
+        }
+        v
+    } else {
+        vec![Mode::CmdString, Mode::Eval, Mode::Dot, Mode::FileOperand]
+    }
+}
+
+/// Observations of one scenario, grouped: (obs, echo_fd) -> mode names
+struct Group {
+    obs: Obs,
+    echo_fd: bool,
+    modes: Vec<String>,
+}
+
+fn add(groups: &mut Vec<Group>, sc: &Scenario, obs: Obs, echo_fd: bool, name: String) {
+    let e = echo_fd && sc.has("VB");
+    if let Some(g) = groups.iter_mut().find(|g| g.obs == obs && g.echo_fd == e) {
+        g.modes.push(name);
+    } else {
+        groups.push(Group { obs, echo_fd: e, modes: vec![name] });
+    }
+}
+
+fn record(sc: &Scenario, g: &Group, origin: &str) -> Value {
+    let trace: Vec<Value> = g.obs.trace.iter().map(|(a, st, off)| json!({"args": a, "st": st, "off": off})).collect();
+    // stderr is shipped line by line only where `set -v` makes the specification speak about it
+    let elines: Vec<String> = if sc.has("VB") {
+        g.obs.stderr.split_inclusive('\n').take(64).map(|s| s.to_string()).collect()
+    } else {
+        vec![]
+    };
+    json!({
+        "lines": sc.lines, "nl": sc.nl, "feed": sc.feed, "text": sc.texts(),
+        "origin": origin, "modes": g.modes,
+        "outcome": g.obs.outcome, "trace": trace, "status": g.obs.status,
+        "errnz": !g.obs.stderr.is_empty(), "echofd": g.echo_fd, "elines": elines,
+        "nout": g.obs.stdout.len(),
+    })
+}
+
+fn run_scenario(sc: &Scenario, plan: &Plan, dfs: bool, real_modes: &[real::RMode], stats: &mut Stats) -> Vec<Group> {
+    let mut groups: Vec<Group> = vec![];
+    for m in sim_modes(sc, plan) {
+        let (obs, _) = sim::run(sc, &m);
+        stats.sim_runs += 1;
+        add(&mut groups, sc, obs, m.echo_fd(), m.name());
+    }
+    if dfs && sc.feed == "fd" {
+        // every schedule of feeder vs. shell within the first dfs_depth choice points
+        let h = hash_of(sc) ^ plan.seed;
+        let chunk = CHUNKS[(h % 4) as usize];
+        let mut prefix: Vec<usize> = vec![];
+        let mut n = 0;
+        loop {
+            let m = Mode::Pipe { chunk, schedule: Schedule::Prefix(prefix.clone()) };
+            let (obs, choices) = sim::run(sc, &m);
+            stats.sim_runs += 1;
+            stats.dfs_schedules += 1;
+            n += 1;
+            add(&mut groups, sc, obs, true, format!("sim:pipe{chunk}:dfs"));
+            match next_prefix(&choices, plan.dfs_depth) {
+                Some(p) if n < 4096 => prefix = p,
+                _ => break,
+            }
+        }
+        // mode names of the dfs runs are identical: keep one per group
+        for g in &mut groups {
+            g.modes.dedup();
+        }
+    }
+    for rm in real_modes {
+        let obs = real::run(sc, rm);
+        stats.real_runs += 1;
+        add(&mut groups, sc, obs, rm.echo_fd(), rm.name());
+    }
+    groups
+}
+
+#[derive(Default, Clone)]
+struct Stats {
+    sim_runs: usize,
+    real_runs: usize,
+    dfs_schedules: usize,
+    scenarios: usize,
+    records: usize,
+    split: usize,
+}
+
+fn real_modes_for(sc: &Scenario, h: u64) -> Vec<real::RMode> {
+    if sc.feed == "fd" {
+        vec![real::RMode::File, real::RMode::Pipe(CHUNKS[(h % 5) as usize]), real::RMode::Pipe(CHUNKS[((h / 5) % 5) as usize])]
+    } else {
+        vec![real::RMode::CmdString, real::RMode::Dot]
+    }
+}
+
 fn main() {
-    eprintln!("yv-c18: not implemented yet");
-    std::process::exit(2);
+    yvcommon::real::maybe_child_main();
+    real::maybe_child_main();
+    yvcommon::util::quiet_panics();
+    let args: Vec<String> = std::env::args().skip(1).collect();
+    let seed = yvcommon::util::seed();
+    match args.first().map(|s| s.as_str()) {
+        Some("run") => {
+            let plan = Plan {
+                seed,
+                full_len: opt_usize(&args, "--full-len", 3),
+                rnd_sched: opt_usize(&args, "--rnd-sched", 1),
+                dfs_depth: opt_usize(&args, "--dfs-depth", 6),
+            };
+            let n_rand = opt_usize(&args, "--rand", 0);
+            let rmin = opt_usize(&args, "--randmin", 4);
+            let rmax = opt_usize(&args, "--randmax", 9);
+            let n_real = opt_usize(&args, "--real", 0);
+            let n_dfs = opt_usize(&args, "--dfs", 0);
+            let threads = opt_usize(&args, "--threads", 8).max(1);
+            // (scenario, origin)
+            let mut work: Vec<(Scenario, &'static str)> = vec![];
+            if let Some(cat) = opt(&args, "--cat") {
+                let f = std::io::BufReader::new(std::fs::File::open(cat).expect("open --cat"));
+                for line in f.lines() {
+                    let line = line.expect("read --cat");
+                    if line.trim().is_empty() {
+                        continue;
+                    }
+                    let v: Value = serde_json::from_str(&line).expect("catalogue line is JSON");
+                    match Scenario::from_json(&v) {
+                        Ok(s) => work.push((s, "catalogue")),
+                        Err(e) => {
+                            eprintln!("yv-c18: bad catalogue entry: {e}");
+                            std::process::exit(2);
+                        }
+                    }
+                }
+            }
+            let mut rng = rand::rngs::StdRng::seed_from_u64(seed.wrapping_mul(7919) + 18);
+            for i in 0..n_rand {
+                let len = rng.gen_range(rmin..=rmax);
+                let feed = if i % 3 == 2 { "str" } else { "fd" };
+                work.push((scen::random(&mut rng, len, feed), "random"));
+            }
+            // seeded choice of the scenarios that also run on the real OS / under all schedules
+            let total = work.len().max(1);
+            let mut real_pick = vec![false; work.len()];
+            let mut dfs_pick = vec![false; work.len()];
+            for _ in 0..n_real.min(work.len()) {
+                real_pick[rng.gen_range(0..total)] = true;
+            }
+            let fd_idx: Vec<usize> = work.iter().enumerate().filter(|(_, w)| w.0.feed == "fd" && w.0.lines.len() >= 2).map(|(i, _)| i).collect();
+            for _ in 0..n_dfs.min(fd_idx.len()) {
+                dfs_pick[fd_idx[rng.gen_range(0..fd_idx.len())]] = true;
+            }
+            let chunk_size = work.len().div_ceil(threads).max(1);
+            let plan = &plan;
+            let work_ref = &work;
+            let real_pick = &real_pick;
+            let dfs_pick = &dfs_pick;
+            let results: Vec<(Vec<String>, Stats)> = std::thread::scope(|s| {
+                let mut hs = vec![];
+                for t in 0..threads {
+                    let lo = t * chunk_size;
+                    let hi = ((t + 1) * chunk_size).min(work_ref.len());
+                    if lo >= hi {
+                        continue;
+                    }
+                    hs.push(s.spawn(move || {
+                        let mut out = vec![];
+                        let mut stats = Stats::default();
+                        for i in lo..hi {
+                            let (sc, origin) = &work_ref[i];
+                            let rm = if real_pick[i] { real_modes_for(sc, hash_of(sc) ^ plan.seed) } else { vec![] };
+                            let groups = run_scenario(sc, plan, dfs_pick[i], &rm, &mut stats);
+                            stats.scenarios += 1;
+                            if groups.len() > 1 {
+                                stats.split += 1;
+                            }
+                            for g in &groups {
+                                out.push(record(sc, g, origin).to_string());
+                                stats.records += 1;
+                            }
+                        }
+                        (out, stats)
+                    }));
+                }
+                hs.into_iter().map(|h| h.join().expect("worker thread")).collect()
+            });
+            let mut w = yvcommon::util::open_out(&args);
+            let mut tot = Stats::default();
+            for (lines, st) in results {
+                for l in lines {
+                    writeln!(w, "{l}").unwrap();
+                }
+                tot.sim_runs += st.sim_runs;
+                tot.real_runs += st.real_runs;
+                tot.dfs_schedules += st.dfs_schedules;
+                tot.scenarios += st.scenarios;
+                tot.records += st.records;
+                tot.split += st.split;
+            }
+            w.flush().unwrap();
+            eprintln!(
+                "{}",
+                json!({"scenarios": tot.scenarios, "records": tot.records, "sim_runs": tot.sim_runs, "real_runs": tot.real_runs,
+                       "dfs_schedules": tot.dfs_schedules, "scenarios_with_more_than_one_observation": tot.split})
+            );
+        }
+        Some("one") => {
+            let v: Value = serde_json::from_str(opt(&args, "--scenario").expect("--scenario JSON")).expect("JSON");
+            let sc = Scenario::from_json(&v).expect("scenario");
+            let plan = Plan { seed, full_len: 99, rnd_sched: 2, dfs_depth: 6 };
+            let mut stats = Stats::default();
+            let rm = if args.iter().any(|a| a == "--real") { real_modes_for(&sc, hash_of(&sc) ^ seed) } else { vec![] };
+            let groups = run_scenario(&sc, &plan, args.iter().any(|a| a == "--dfs"), &rm, &mut stats);
+            let mut w = yvcommon::util::open_out(&args);
+            for g in &groups {
+                writeln!(w, "{}", record(&sc, g, "one")).unwrap();
+                if args.iter().any(|a| a == "--verbose") {
+                    eprintln!("modes={:?}\nstderr={:?}\nstdout={:?}", g.modes, g.obs.stderr, g.obs.stdout);
+                }
+            }
+        }
+        _ => {
+            eprintln!("usage: yv-c18 run|one ...");
+            std::process::exit(2);
+        }
+    }
 }
